@@ -22,15 +22,6 @@ Definition status_of_N (n : N) : status :=
 Definition N_of_status (s : status) : N :=
   match s with Growing => 0 | Unjustified => 1 | Justified => 2 | Finalized => 3 end.
 
-(* a byte string written as its length and big-endian value (one numeral in the case
-   files instead of a list of numerals) *)
-Fixpoint key_of_aux (len : nat) (x : N) (acc : key) : key :=
-  match len with
-  | O => acc
-  | S l => key_of_aux l (N.shiftr x 8) (N.land x 255 :: acc)
-  end.
-Definition K (len : nat) (x : N) : key := key_of_aux len x [].
-
 (* short constructors for the case files *)
 Definition CP (h ts st : N) (votes : vmap) : checkpoint :=
   {| cp_height := h; cp_ts := ts; cp_status := status_of_N st; cp_votes := votes |}.
